@@ -40,6 +40,8 @@ type Pkg struct {
 	YieldFunc  map[int]string // yield site -> function name
 	PkgID      int
 	UsesSync   bool
+	globalInit map[string]reflect.Value
+	globalMaps []string
 	NoRace     bool // goroutines or channel operations of its own: orderings the race detector does not model
 	UnsimSync  bool // uses synchronisation the simulator does not model (atomic, Once, Cond, WaitGroup, ...)
 	Swagger    *openapi3.Swagger
